@@ -29,7 +29,7 @@ def plan(thorough):
         else:
             units.append(("int", 2, "std", ("name",), nl, 3 if thorough else 2))
     units.append(("invalid",))
-    units += [("extra", f) for f in ("skew", "args", "dupnames", "twice", "self", "expectstr", "namesake", "dupkeys", "typednone", "large")]
+    units += [("extra", f) for f in ("skew", "args", "dupnames", "twice", "self", "expectstr", "namesake", "dupkeys", "typednone", "large", "keyorder")]
     return units
 
 
@@ -212,7 +212,7 @@ def coverage_goals(ctx, agg):
     return [k for k in ("refused-as-required", "accepted-as-required", "invalid-expect-rejected") if agg.outcomes.get(k, 0) < 100]
 
 
-_FAMILY_UNITS = {'skewed sizes': 'skew', 'caller-owned key lists': 'args', 'repeated column name': 'dupnames', 'two joins on the same table objects': 'twice', 'self-join': 'self', 'expect string built at run time': 'expectstr', "key vector that carries a column's name": 'namesake', 'several different duplicated keys': 'dupkeys', 'typed key column holding only None after a cut': 'typednone', 'large tables': 'large'}
+_FAMILY_UNITS = {'skewed sizes': 'skew', 'caller-owned key lists': 'args', 'repeated column name': 'dupnames', 'two joins on the same table objects': 'twice', 'self-join': 'self', 'expect string built at run time': 'expectstr', "key vector that carries a column's name": 'namesake', 'several different duplicated keys': 'dupkeys', 'typed key column holding only None after a cut': 'typednone', 'large tables': 'large', 'key names listed in another order than the columns': 'keyorder'}
 
 
 def replay(rec):
